@@ -129,7 +129,12 @@ def execute(program, ctx):
     period = V["period"]
     kind = V["kind"]
 
+    cond = {}
+
     def fail(inv, what, details):
+        numeric = inv in ("final-params", "criterion-history", "best-params") or (inv == "stop-iteration" and what == "loss-history")
+        if numeric and cond.get("args") is not None and ts.ill_conditioned(*cond["args"], observed=cond.get("observed")):
+            raise ts.Unsupported(f"ill-conditioned training (reference not determined to within the tolerance): {inv}")
         raise Violation(ID, inv, f"{ID}.{inv}/{kind}/{program['driver']}/{what}", details, None)
 
     if kind == "scripted":
@@ -196,6 +201,8 @@ def execute(program, ctx):
         fail("stop-iteration", "generator-advance",
              {"expected_iterations": n_run, "stop_it": stop_it, "note": "training did not stop right after the invocation that requested it (or ran a different number of iterations)"})
     R = chosen
+    cond["args"] = (P, n_run, P.params, P.data, P.param_data, P.obs_data, None, w, R)
+    cond["observed"] = (ts.maxdiff(o_params, R.params), None)
     if R.stop_reason == "nan":
         raise ts.Unsupported("NaN parameters in a validation program")
     exp_loss = np.zeros(n)
